@@ -297,7 +297,6 @@ func (p *Proxy) Serve(l net.Listener) error {
 			return err
 		}
 		delay = 0
-		log.Debug(context.TODO(), "accepted connection", "address", conn.RemoteAddr().String())
 
 		go p.handleLoop(conn)
 	}
@@ -305,6 +304,10 @@ func (p *Proxy) Serve(l net.Listener) error {
 
 func (p *Proxy) handleLoop(conn net.Conn) {
 	start := time.Now()
+
+	// The remote address is read here, not in the accept loop: on a PROXY protocol or TLS connection
+	// it blocks until the peer has sent its header, which must not hold up other clients.
+	log.Debug(context.TODO(), "accepted connection", "address", conn.RemoteAddr().String())
 
 	p.connsMu.Lock()
 	p.conns[conn] = struct{}{}
